@@ -99,8 +99,9 @@ var zzhImgNames = []string{"a.png", "a.png", "photo.jpg", "noext", "x.JPEG", "d.
 func zzhRelOp(d *Document, tbl **Table) {
 	switch zzvChoice(9) {
 	case 0:
-		_, err := d.AddImageFromData(zzhPNG, zzhImgNames[zzvChoice(len(zzhImgNames))], ImageFormatPNG, 10, 10, nil)
-		zzvAssume(err == nil)
+		// arbitrary (possibly empty) image bytes; a call that reports an error must leave the
+		// relationships as consistent as a successful one
+		d.AddImageFromData([]byte(zzvString()), zzhImgNames[zzvChoice(len(zzhImgNames))], ImageFormatPNG, 10, 10, nil)
 	case 1:
 		_, err := d.AddImageFromDataWithoutElement(zzhPNG, zzhImgNames[zzvChoice(len(zzhImgNames))], ImageFormatJPEG, 10, 10, nil)
 		zzvAssume(err == nil)
